@@ -4,6 +4,8 @@ import MypyVerif.Model.FixedWidth
 # C15 — lemmas about the hand model of the Python-side lowering (`Model/FixedWidth.lean`)
 -/
 set_option maxRecDepth 4000
+set_option linter.unusedSimpArgs false
+set_option linter.unusedVariables false
 namespace CFastProofs
 open CFast Tagged CSem FixedWidth
 
@@ -609,6 +611,12 @@ theorem xor64_eq_pyXor (a b : Int) (ha : -9223372036854775808 ≤ a ∧ a < 9223
 
 theorem fits_range (n : Int) (h : Fits n) : -9223372036854775808 ≤ n ∧ n < 9223372036854775808 := by
   unfold Fits at h; omega
+
+theorem short_ne_one (x : BitVec 64) (h : isShort x) : (x == 1#64) = false := by
+  unfold isShort at h
+  have : x ≠ 1#64 := by
+    intro e; rw [e] at h; revert h; decide
+  simp [this]
 
 /-! ## ranges -/
 
